@@ -28,11 +28,15 @@ class WorkerDied(BaseException):
     """Raised inside a worker to simulate the death of its process."""
 
 
+_COPY_FILE = __import__("copy").__file__
+
+
 class Scheduler:
-    def __init__(self, preempt: dict[int, int] | None = None, trace_files: tuple[str, ...] = (), record: bool = False, max_steps: int = 200000, only_funcs: dict[str, set[str]] | None = None) -> None:
+    def __init__(self, preempt: dict[int, int] | None = None, trace_files: tuple[str, ...] = (), record: bool = False, max_steps: int = 200000, only_funcs: dict[str, set[str]] | None = None, copy_yields: bool = False) -> None:
         self.preempt = dict(preempt or {})
         self.targets = set(trace_files)
         self.only_funcs = only_funcs or {}  # file -> function names to trace (default: all)
+        self.copy_yields = copy_yields
         self.record = record
         self.max_steps = max_steps
         self.th: dict[str, dict[str, Any]] = {}
@@ -102,6 +106,13 @@ class Scheduler:
         if event == "call" and frame.f_code.co_filename in self.targets:
             only = self.only_funcs.get(frame.f_code.co_filename)
             if only is None or frame.f_code.co_name in only:
+                return self._local
+        elif event == "call" and self.copy_yields and frame.f_code.co_filename == _COPY_FILE and frame.f_code.co_name in ("_deepcopy_list", "_deepcopy_dict"):
+            # copy.deepcopy(<container>) / copy.copy called directly from a target file: a thread
+            # can be preempted between two elements of the container being copied (a snapshot
+            # taken outside the lock tears exactly there).  Nested containers are not traced.
+            b = frame.f_back
+            if b is not None and b.f_back is not None and b.f_code.co_filename == _COPY_FILE and b.f_back.f_code.co_filename in self.targets:
                 return self._local
         return None
 
